@@ -29,6 +29,10 @@ pub fn eval_case(case: &Case) -> Result<Vec<(Tri, reference::RSet, bool)>, Outco
     let rule = match engine::load_text(text) {
         Load::Ok(r) => r,
         Load::Rejected(e) => {
+            if e.contains("CompiledTooBig") {
+                // a resource limit of the regex crate, not a statement about the rule language
+                return Err(Outcome::Skip("regex size limit".into()));
+            }
             return Err(Outcome::Violation(format!("loader rejects a rule the language defines: {e}")));
         }
         Load::Panicked(p) => return Err(Outcome::Violation(format!("loader panicked: {p}"))),
